@@ -366,10 +366,7 @@ Proof.
   - destruct (handler_can_accept x); [|Lt]. cbn [fst]. apply RL_accept.
   - destruct (d_block x); [Lt|]. destruct (aget (d_group x) (f_groups w)); [apply IH|Lt].
   - destruct (negb (operational x && negb (d_block x))); [Lt|apply TL].
-  - destruct (rev (item_gpath it)) as [|gp rest]; [apply RL_fail|].
-    match goal with |- context[fold_left ?F ?l (w, false)] => pose proof (TL it l w false) as T; destruct (fold_left F l (w, false)) as [w1 ok] end.
-    cbn [fst] in T. destruct ok; cbn [fst]; [|exact T].
-    eapply RL_trans; [exact T|]. apply RL_one, l_everywhere.
+  - destruct (rev (item_gpath it)) as [|gp rest]; [apply RL_fail|apply TL].
 Qed.
 
 Lemma RL_try_downstream fuel w d it : RL w (fst (try_downstream fuel nw w d it)).
